@@ -31,8 +31,8 @@ ID = 'C12'
 LEVEL = 'model_checking'
 
 SEGS = ('~', '\n', '!', '\x1c', '{')
-ELES = ('*', '|', '+', '\x1d')       # incl. a control-character separator (the FS/GS/RS/US family real files use)
-SUBS = (':', '>', '\\', '%')          # % and { are format / template characters of the implementation language
+ELES = ('*', '|', '+', '\x1d')       # incl. a control-character separator; '*' may also be the COMPONENT separator when the element separator is another character
+SUBS = (':', '>', '\\', '%', '*')          # % and { are format / template characters of the implementation language
 EOLS = ('', '\n', '\r\n', '\r')
 BASE = ('~', '*', ':', '')
 FACTOR = ('seg', 'ele', 'sub', 'eol')
